@@ -44,7 +44,9 @@ STEPS = [0.01, 0.02, 0.05, 0.013, 0.1, 1 / 7, 0.5, 0.004]
 
 def plan(tier, seed):
     per = 60 if tier == 'quick' else 1400
-    return [{'seed': seed * 1000 + i, 'n': per} for i in range(16)]
+    return [{'seed': seed * 1000 + i, 'n': per} for i in range(16)] + \
+        [{'seed': seed, 'n': 0, 'pytest': ['tests/test_golden.py'] + (
+            ['tests/test_trajectory_simulation.py'] if tier == 'thorough' else [])}]
 
 
 def required(tier):
@@ -52,11 +54,15 @@ def required(tier):
           'route:above-cruise', 'route:close', 'capacity:aligned', 'capacity:not-aligned',
           'outcome:flown', 'outcome:rejected', 'mass-iteration:on', 'mass-iteration:off',
           'resampled:own-times', 'table:sample', 'table:variant', 'starting-mass:given',
-          'starting-mass:computed']
+          'starting-mass:computed', 'workload:repository-tests-under-contract']
     return {'classes': cl, 'counters': {'contract_evaluations': 100}, 'evaluations': 300}
 
 
 def run_shard(spec, rec):
+    if spec.get('pytest'):
+        from vlib.pytest_contracts import run_repo_tests
+        run_repo_tests('C02', spec['pytest'], rec)
+        return
     import icontract
 
     import AEIC.trajectories.builders as tb
